@@ -265,9 +265,13 @@ def explore(chk, cfg, depth, max_states=None, stop_at=None):
 
     def run_layer(hists):
         items = [item_for(cfg, h) for h in hists]
-        res = run_batch("fast", DRIVER, items, env={"VERIF_VTIME": "1"}, chunk=300, timeout=120)
+        res = run_batch("fast", DRIVER, items, env={"VERIF_VTIME": "1"}, chunk=300, timeout=60, max_deaths=8)
         out = []
         for h, (st, text) in zip(hists, res):
+            if st == "SKIPPED":
+                chk.cap("%s: histories not run after 8 dead workers" % label)
+                out.append([("__failed__",)] * len(h))
+                continue
             if st != "OK":
                 chk.violation("driver-%s:%s" % (st.lower(), shape(h[-1])),
                               "history %r on %s: %s %s" % (h, label, st, text[:300]), replay_text(cfg, h, st))
